@@ -169,6 +169,15 @@ def stress_scenarios(first_tr, seed, thorough):
         s.append(dict(op='stress', workers=w, iters=it, seed=seed * 10 + tr % 7, panic_pct=pct, res=['r1', 'r2']))
         out.append(s)
         tr += 1
+    # first-entry race: several goroutines enter a never-seen resource at the same instant (the statistic node is created on demand)
+    for mode in ('stat', 'global'):
+        s = [dict(op='new', tr=tr, mode=mode, t=100, nodes=NODES, **({'iso': {}, 'hot': []} if mode == 'global' else {}))]
+        if mode == 'stat':
+            s += [dict(op='slot', k='pre', ord=1000, beh='real'), dict(op='slot', k='rule', ord=1, beh='script', bm='ctx'),
+                  dict(op='slot', k='stat', ord=1000, beh='real'), dict(op='slot', k='stat', ord=2000, beh='pass')]
+        s.append(dict(op='firstrace', rounds=200 if not thorough else 3000, workers=8))
+        out.append(s)
+        tr += 1
     return out
 
 
@@ -183,7 +192,7 @@ def nontrivial(s):
             if o['id'] in seen:
                 return True          # repeated / late exit
             seen.add(o['id'])
-        if o['op'] == 'stress':
+        if o['op'] in ('stress', 'firstrace'):
             return True
     return len(ent) >= 2 and any(o['op'] == 'tick' and o['d'] > 0 for o in s)
 
@@ -203,7 +212,7 @@ def binding_selftest(c, tp):
         cands = {}
         for i, e in enumerate(gl):
             st = e.get('st')
-            if not st or e['op'] == 'stress':
+            if not st or e['op'] in ('stress', 'firstrace'):
                 continue
             if st.get('nodes'):
                 cands.setdefault('sum', []).append(i)
